@@ -86,6 +86,7 @@ impl TrackCross {
 //@ item layout21tetris/src/stack.rs :: struct Assign
 //@ end
 impl Assign {
+    //@ pin layout21tetris/src/stack.rs :: impl Assign :: fn new @d78ca060
     /// model of Assign::new(impl Into<String>, impl Into<TrackCross>)
     #[verifier::external_body]
     pub fn new(net: String, at: TrackCross) -> (r: Self) ensures r.net@ == net@, r.at == at { Assign { net, at } }
@@ -95,6 +96,7 @@ impl Assign {
 //@   sub R5 /PtrList<Instance>/ => Vec<Ptr<Instance>>
 //@ end
 impl Layout {
+    //@ pin layout21tetris/src/layout.rs :: impl Layout :: fn new @417e9a79
     /// model of Layout::new: the three given fields, everything else empty
     #[verifier::external_body]
     pub fn new(name: String, metals: usize, outline: Outline) -> (r: Self)
@@ -260,6 +262,7 @@ pub struct Port { }
 //@ item layout21tetris/src/abs.rs :: struct Abstract
 //@ end
 impl Abstract {
+    //@ pin layout21tetris/src/abs.rs :: impl Abstract :: fn new @9c05dab1
     /// model of Abstract::new(impl Into<String>, metals, outline)
     #[verifier::external_body]
     pub fn new(name: &String, metals: usize, outline: Outline) -> (r: Self) ensures r.name@ == name@, r.metals == metals, r.outline == outline, r.ports@.len() == 0 { unimplemented!() }
@@ -269,6 +272,7 @@ pub mod interface { pub struct Bundle { } }
 pub struct RawLayoutPtr { }
 //@ item layout21tetris/src/cell.rs :: struct Cell
 //@ end
+//@ pin layout21tetris/src/cell.rs :: impl From<Layout> for Cell :: fn from @6c4fc9f0
 /// model of `impl From<Layout> for Cell` (cell.rs): named after the layout, only the layout view
 impl vstd::std_specs::convert::FromSpecImpl<Layout> for Cell {
     open spec fn obeys_from_spec() -> bool { true }
@@ -279,10 +283,13 @@ impl From<Layout> for Cell {
     fn from(src: Layout) -> (r: Cell) ensures r.name@ == src.name@, r.layout == Some(src), r.abs is None { unimplemented!() }
 }
 impl Cell {
+    //@ pin layout21tetris/src/cell.rs :: impl Cell :: fn new @b3069758
     /// model of Cell::new(impl Into<String>): the name, every view absent (`..Default::default()`)
     #[verifier::external_body]
     pub fn new(name: &String) -> (r: Self) ensures r.name@ == name@, r.abs is None, r.layout is None { unimplemented!() }
 }
+//@ pin layout21utils/src/ptr.rs :: impl<T> PtrList<T> :: fn insert @cadd958f
+//@ pin layout21utils/src/ptr.rs :: impl<T> PtrList<T> :: fn add @305d31d1
 /// model of layout21utils::PtrList<T> (newtype over Vec<Ptr<T>>); `insert` = `add`: wrap in a new Ptr, append, return the pointer
 pub struct PtrList<T> { pub v: Vec<Ptr<T>> }
 impl<T> View for PtrList<T> { type V = Seq<Ptr<T>>; open spec fn view(&self) -> Seq<Ptr<T>> { self.v@ } }
@@ -293,6 +300,7 @@ impl<T> PtrList<T> {
 /// R5: layout21tetris::library::Library without its raw-library list
 pub struct Library { pub name: String, pub cells: PtrList<Cell> }
 impl Library {
+    //@ pin layout21tetris/src/library.rs :: impl Library :: fn new @b3069758
     /// model of Library::new(impl Into<String>)
     #[verifier::external_body]
     pub fn new(name: String) -> (r: Self) ensures r.name@ == name@, r.cells@.len() == 0 { unimplemented!() }
